@@ -1,7 +1,8 @@
 (** C19 — codec libraries invert each other and are total on hostile input: property theorems only. *)
 From ChibiV Require Import C19.Prims C19.Base64 C19.Base64Proofs C19.Base64Stream C19.Base64StreamProofs
   C19.IntCodec C19.IntCodecProofs C19.AccTable Gen.C19_AccTable C19.AccTableProofs C19.UvTable Gen.C19_UvTable C19.UvTableProofs
-  C19.Json C19.JsonProofs C19.JsonValueProofs C19.JsonTextProofs C19.QP C19.QPProofs C19.Uri C19.UriProofs.
+  C19.Json C19.JsonProofs C19.JsonValueProofs C19.JsonTextProofs C19.QP C19.QPProofs C19.Uri C19.UriProofs
+  C19.Csv C19.CsvProofs Gen.C19_Quarters C19.Half Gen.C19_HalfFns C19.HalfBnd C19.HalfProofs1 C19.HalfProofs2 C19.HalfProofs3 C19.QuarterProofs.
 Local Open Scope Z_scope.
 
 (** base64: decode . encode = id on every byte string (any length class mod 3) *)
@@ -120,7 +121,7 @@ Print Assumptions stream_decode_equals_decode.
 (** every round's output fits the dst buffer of 3*((3+N)>>2) bytes the port decoder allocates once *)
 Theorem stream_decode_chunk_fits : forall (N : nat) (chunk : list Z), length chunk = N ->
   let '(out, _, (c1, c2, c3)) := dec_k chunk OUTSIDE OUTSIDE OUTSIDE in
-  Z.of_nat (length (out ++ finish c1 c2 c3)) <= dst_len (Z.of_nat N).
+  Z.of_nat (length (out ++ Base64.finish c1 c2 c3)) <= dst_len (Z.of_nat N).
 Proof. exact Base64StreamProofs.stream_decode_chunk_fits. Qed.
 Print Assumptions stream_decode_chunk_fits.
 
@@ -164,3 +165,80 @@ Print Assumptions accessor_table_in_bounds.
 Theorem uvector_table_in_bounds : forall e, In e uv_table -> forall len i, uasserted e len i = true <-> 0 <= i < len.
 Proof. exact UvTableProofs.uvector_table_in_bounds. Qed.
 Print Assumptions uvector_table_in_bounds.
+
+From Coq Require Import List.
+Import ListNotations.
+Local Open Scope Z_scope.
+
+(** CSV (lib/chibi/csv.scm, any well-formed grammar: separators, quote char, doubling or escape char, lax / crlf / single-character
+    record separator): reading what the writer wrote returns the table, for fields over ALL characters (quotes, separators, CR, LF,
+    CRLF, the escape character, empty fields); the two row shapes the format cannot represent — the empty row and the row of one
+    empty field, both written as a bare record separator — vanish *)
+Theorem csv_roundtrip : forall g, wf g -> forall rows txt, csv_write g rows = Some txt -> csv_read g txt = Some (filter representable rows).
+Proof. exact CsvProofs.csv_roundtrip. Qed.
+Print Assumptions csv_roundtrip.
+
+(** CSV: for a well-formed grammar the writer never raises; for the default grammar (comma, double quote doubled, lax) every table round-trips *)
+Theorem csv_roundtrip_default : (forall g, wf g -> forall rows, csv_write g rows <> None) /\
+  forall rows, exists txt, csv_write default_grammar rows = Some txt /\ csv_read default_grammar txt = Some (filter representable rows).
+Proof. exact (conj CsvProofs.csv_write_total CsvProofs.csv_roundtrip_default). Qed.
+Print Assumptions csv_roundtrip_default.
+
+(** CSV: the writer quotes a field iff it contains the quote char, the escape char, a separator, the record-separator char, CR or LF ... *)
+Theorem csv_writer_quotes_exactly_when_needed :
+  (forall g f, write_field g f = if existsb (needs_quoting g) f then write_quoted g f else Some f) /\
+  (forall g ch, needs_quoting g ch = true <-> (quote g = Some ch \/ esc g = Some ch \/ In ch (seps g) \/ rs g = RChar ch \/ ch = LF \/ ch = CR)).
+Proof. exact CsvProofs.csv_writer_quotes_exactly_when_needed. Qed.
+Print Assumptions csv_writer_quotes_exactly_when_needed.
+
+(** ... and each of these is NEEDED under the default grammar: a field containing one of them, written bare, is never read back as that field *)
+Theorem csv_unquoted_special_misread : forall f, existsb (needs_quoting default_grammar) f = true ->
+  csv_read default_grammar (f ++ [LF]) <> Some [[f]].
+Proof. exact CsvProofs.csv_unquoted_special_misread. Qed.
+Print Assumptions csv_unquoted_special_misread.
+
+(** mini-floats: sexp_double_to_half (sexp_half_to_double h) = h for ALL 65536 patterns (functions REGENERATED from sexp.c) *)
+Theorem half_roundtrip : forall h, 0 <= h < 65536 -> gen_double_to_half (gen_half_to_double h) = h.
+Proof. exact HalfProofs1.half_roundtrip. Qed.
+Print Assumptions half_roundtrip.
+
+(** mini-floats: the double denotes exactly the half's value (-1)^s m 2^-24 resp. (-1)^s (1024+m) 2^(e-25) — exponent field 31 is an ordinary
+    exponent in sexp.c; only 0x7C00 / 0xFC00 / 0x7FFF are +inf / -inf / NaN *)
+Theorem half_to_double_exact : forall h, 0 <= h < 65536 -> half_special h = false ->
+  finite64 (gen_half_to_double h) = true /\ dy_eq (dyadic64 (gen_half_to_double h)) (half_dyadic h).
+Proof. exact HalfProofs2.half_to_double_exact. Qed.
+Print Assumptions half_to_double_exact.
+
+(** mini-floats: at every boundary between adjacent half values the tie goes away from zero, the next binary32 below goes down, the next
+    binary64 below goes up (sexp_double_to_half rounds its argument to binary32 first) *)
+Theorem double_to_half_boundaries : forall a, 0 <= a < 32767 -> half_special a = false -> half_special (a + 1) = false ->
+  gen_double_to_half (hmid a) = a + 1 /\ gen_double_to_half (predf64 (hmid a)) = a /\ gen_double_to_half (pred64 (hmid a)) = a + 1.
+Proof. exact HalfProofs3.double_to_half_boundaries. Qed.
+Print Assumptions double_to_half_boundaries.
+
+(** mini-floats: wherever the subnormal term of sexp_half_to_double counts, its shift count 150 - v is a defined C shift *)
+Theorem half_shift_counts_defined : forall h, 0 <= h < 65536 ->
+  Z.land (Z.shiftr h 10) 31 = 0 -> Z.land h 1023 <> 0 -> 0 <= h2d_shift_count h < 32.
+Proof. exact HalfProofs2.half_shift_counts_defined. Qed.
+Print Assumptions half_shift_counts_defined.
+
+(** quarters (table REGENERATED from sexp.c): every pattern round-trips up to NaN collapse (125..127, 253..255 -> 127) and -0 -> +0 *)
+Theorem quarter_roundtrip : forall q, 0 <= q < 256 -> double_to_quarter (quarter_to_double q) = quarter_canon q.
+Proof. exact QuarterProofs.quarter_roundtrip. Qed.
+Print Assumptions quarter_roundtrip.
+
+(** quarters: the table is the 1.5.2 format with bias 15, exactly; it is strictly increasing (what the binary search relies on) *)
+Theorem quarter_to_double_exact : (forall q, 0 <= q < 256 -> Z.land q 127 < 124 ->
+  finite64 (quarter_to_double q) = true /\ dy_eq (dyadic64 (quarter_to_double q)) (quarter_dyadic q)) /\
+  (forall i, 0 <= i < 124 -> qtab i < qtab (i + 1)).
+Proof. exact (conj QuarterProofs.quarter_to_double_exact QuarterProofs.quarters_sorted). Qed.
+Print Assumptions quarter_to_double_exact.
+
+(** quarters: sexp_double_to_quarter rounds to nearest at every boundary (midpoint and the double below go down, the double above goes up,
+    both signs), and the model's search fuel suffices *)
+Theorem double_to_quarter_boundaries : (forall i, 0 <= i < 123 ->
+  double_to_quarter (qmid i) = i /\ double_to_quarter (pred64 (qmid i)) = i /\ double_to_quarter (succ64 (qmid i)) = i + 1 /\
+  double_to_quarter (neg64 (qmid i)) = 128 + i /\ double_to_quarter (neg64 (succ64 (qmid i))) = 128 + i + 1) /\
+  (forall f, q_search 9 0 (quarters_infinity_index - 1) f <> None).
+Proof. exact (conj QuarterProofs.double_to_quarter_boundaries QuarterProofs.d2q_search_total). Qed.
+Print Assumptions double_to_quarter_boundaries.
